@@ -16,7 +16,8 @@ const pkgTBLS = "0chain.net/chaincore/threshold/bls"
 const libBLS = "github.com/herumi/bls-go-binary/bls"
 
 // c34Sources: labelled backward may-dependence of v inside fn:
-//   param:<name>   field:<name>   rangekey:<src>   rangeval:<src>   call:<callee>
+//
+//	param:<name>   field:<name>   rangekey:<src>   rangeval:<src>   call:<callee>
 type c34Src map[string]bool
 
 func (s c34Src) has(prefix string) bool {
@@ -329,24 +330,7 @@ func c34(r *core.Report, p *core.Prog, thorough bool) {
 		r.Unresolved("C34.sign-verify", "DKG.Sign")
 	}
 	if fn := dkgM("VerifySignature"); fn != nil {
-		cs := c34Calls(fn, "bls.Sign).Verify")
-		okV := len(cs) == 1
-		d := ""
-		if okV {
-			sg, k, m := c34Sources(cs[0].Call.Args[0]), c34Sources(cs[0].Call.Args[1]), c34Sources(cs[0].Call.Args[2])
-			okV = sg.has("param:sig") && k.has("field:gmpk") && k.has("param:id") && !k.has("param:sig") && m.has("param:msg") && !m.has("param:sig")
-			d = fmt.Sprintf("sig %v key %v msg %v", sg.list(), k.list(), m.list())
-			for _, ret := range core.Returns(fn) {
-				if ret.Block() == fn.Recover {
-					continue
-				}
-				if v := core.ResultValue(ret, 0); v != ssa.Value(cs[0]) {
-					if c, isC := v.(*ssa.Const); !isC || c.Value == nil || c.Value.String() != "false" {
-						okV = false
-					}
-				}
-			}
-		}
+		okV, d := c34VerifySignatureShape(fn)
 		r.Check(okV, "C34.sign-verify", "DKG.VerifySignature", p.Pos(fn.Pos()), "returns sig.Verify(&gmpk[id], msg) unchanged; "+d)
 	} else {
 		r.Unresolved("C34.sign-verify", "DKG.VerifySignature")
@@ -834,4 +818,29 @@ func c34ReturnsFalse(b *ssa.BasicBlock) bool {
 		return true
 	}
 	return walk(b)
+}
+
+// c34VerifySignatureShape: DKG.VerifySignature returns, unchanged, the result of its single
+// sig.Verify(key, msg) call whose key depends on gmpk and the id parameter (and not on the
+// signature), whose message is the msg parameter; any other return is the constant false.
+func c34VerifySignatureShape(fn *ssa.Function) (bool, string) {
+	cs := c34Calls(fn, "bls.Sign).Verify")
+	okV := len(cs) == 1
+	d := fmt.Sprintf("%d Verify calls", len(cs))
+	if okV {
+		sg, k, m := c34Sources(cs[0].Call.Args[0]), c34Sources(cs[0].Call.Args[1]), c34Sources(cs[0].Call.Args[2])
+		okV = sg.has("param:sig") && k.has("field:gmpk") && k.has("param:id") && !k.has("param:sig") && m.has("param:msg") && !m.has("param:sig")
+		d = fmt.Sprintf("sig %v key %v msg %v", sg.list(), k.list(), m.list())
+		for _, ret := range core.Returns(fn) {
+			if ret.Block() == fn.Recover {
+				continue
+			}
+			if v := core.ResultValue(ret, 0); v != ssa.Value(cs[0]) {
+				if c, isC := v.(*ssa.Const); !isC || c.Value == nil || c.Value.String() != "false" {
+					okV = false
+				}
+			}
+		}
+	}
+	return okV, d
 }
